@@ -157,6 +157,7 @@ class Ctx:
         self.solver_s = 0.0
         self.floor_cache = {}
         self.axioms_in_branch = False
+        self.axioms_in_trunc = False
         self.floor_lemmas = False
         self.floor_fork = None
         self.floor_list = []
@@ -267,7 +268,7 @@ class Ctx:
             while True:
                 t = time.time()
                 self.queries += 1
-                st, model = solve(self.hyps() + [z3.Not(cond(k)) for k in found], timeout_ms=self.branch_timeout_ms * 4, use_axioms=False)
+                st, model = solve(self.hyps() + [z3.Not(cond(k)) for k in found], timeout_ms=self.branch_timeout_ms * 4, use_axioms=self.axioms_in_trunc)
                 self.solver_s += time.time() - t
                 if st == "unknown":
                     raise PathAbort("unsupported", "int() fork: solver unknown")
@@ -909,3 +910,34 @@ SymReal.reshape = lambda s, *shape: np.array([s], dtype=object).reshape(*shape)
 
 for _n in ("any", "all", "squeeze"):
     setattr(SymBool, _n, _self)
+
+
+class ForkingArray(np.ndarray):
+    """object ndarray whose comparisons are decided element by element through the executor
+    (path fork) and returned as a concrete boolean array - needed where the code uses the
+    result of a comparison as a boolean mask / index."""
+
+    def _cmp(self, other, op):
+        a = np.asarray(self).view(np.ndarray)
+        b = np.asarray(other)
+        aa, bb = np.broadcast_arrays(a, b)
+        out = np.empty(aa.shape, dtype=bool)
+        for idx in np.ndindex(aa.shape):
+            out[idx] = bool(op(aa[idx], bb[idx]))
+        return out
+
+    def __lt__(self, o):
+        return self._cmp(o, lambda x, y: x < y)
+
+    def __le__(self, o):
+        return self._cmp(o, lambda x, y: x <= y)
+
+    def __gt__(self, o):
+        return self._cmp(o, lambda x, y: x > y)
+
+    def __ge__(self, o):
+        return self._cmp(o, lambda x, y: x >= y)
+
+
+def forking(a):
+    return np.asarray(a, dtype=object).view(ForkingArray)
